@@ -29,6 +29,10 @@ def pair_prog(a, b):
     lines.append("let m = {}; m[a] = 'A'; m[b] = 'B'; print('m', m.len(), m[a], m[b], m.has(a), m.has(b), m.get(a), m.get(b));")
     lines.append("print('l', [a].has(b), [a].index(b), [a, b].index(b), (a, a).has(b), (a, b).index(b));")
     lines.append("print('k', {a: 1}.has(b), {a: 1}.get(b));")
+    # the same key questions in maps large enough for the hash (not only equality) to decide the bucket
+    for n in (20, 150, 600):
+        lines.append("let big%d = {}; for i in %d.times() { big%d[i + 1000] = i; big%d['s' + i.str()] = i; } big%d[a] = 'A'; let had%d = big%d.has(b); big%d[b] = 'B'; "
+                     "print('g%d', big%d.len(), big%d[a], big%d[b], had%d, big%d.get(a), [big%d.remove(a)], big%d.has(b), big%d.len());" % ((n,) * 17))
     lines.append("try { print('r', m.remove(a), m.len()); } catch e { print('r!', e.cls().name()); }")
     lines.append("print('eq', a.equals(b), [a] == [b], a == a, b == b, a != a);") if False else None
     lines.append("print('e', a == a, b == b, a != a, !(a == b) == (a != b));")
